@@ -124,6 +124,55 @@ def _grouped_case(args):
     return out
 
 
+FRESH_PROCESS_SCENARIOS = {
+    # validation must not depend on which classes were used earlier in the process: a plain server first, then a cloud server whose
+    # provider alone is changed to one that does not offer its instance type
+    "plain server first, then cloud.provider=aws with a scaleway instance type": """
+from efootprint.core.hardware.server import Server
+from efootprint.core.hardware.storage import Storage
+from efootprint.builders.hardware.boavizta_cloud_server import BoaviztaCloudServer
+from efootprint.abstract_modeling_classes.source_objects import SourceObject, SourceValue
+from efootprint.abstract_modeling_classes.modeling_update import ModelingUpdate
+from efootprint.constants.units import u
+plain = Server.from_defaults("plain", storage=Storage.ssd("s1"))
+plain.power = SourceValue(310 * u.W)
+cloud = BoaviztaCloudServer.from_defaults("cloud", storage=Storage.ssd("s2"))
+try:
+    ModelingUpdate([[cloud.provider, SourceObject("aws")]])
+    print("RESULT accepted")
+except Exception as ex:
+    print("RESULT refused", type(ex).__name__)
+""",
+    "cloud server first, then the same change": """
+from efootprint.core.hardware.storage import Storage
+from efootprint.builders.hardware.boavizta_cloud_server import BoaviztaCloudServer
+from efootprint.abstract_modeling_classes.source_objects import SourceObject
+from efootprint.abstract_modeling_classes.modeling_update import ModelingUpdate
+cloud = BoaviztaCloudServer.from_defaults("cloud", storage=Storage.ssd("s2"))
+try:
+    ModelingUpdate([[cloud.provider, SourceObject("aws")]])
+    print("RESULT accepted")
+except Exception as ex:
+    print("RESULT refused", type(ex).__name__)
+""",
+}
+
+
+def _fresh_process_case(name):
+    import os, subprocess, sys
+    out = {"case": f"fresh-process[{name}]", "status": "ok", "diff": [], "annot": "plain"}
+    try:
+        env = dict(os.environ); env["PYTHONPATH"] = os.environ.get("VF_REPO", "/repo")
+        r = subprocess.run([sys.executable, "-c", FRESH_PROCESS_SCENARIOS[name]], capture_output=True, text=True, env=env, timeout=300)
+        line = next((l for l in r.stdout.splitlines() if l.startswith("RESULT")), None)
+        if line is None: out["status"] = "harness-error"; out["error"] = (r.stderr or r.stdout)[-600:]
+        elif "accepted" in line: out["status"] = "accepted"
+        else: out["exc"] = line.split()[-1]
+    except Exception:
+        out["status"] = "harness-error"; out["error"] = traceback.format_exc()[-600:]
+    return out
+
+
 def all_cases():
     b = H.build_services_system()
     items = []
@@ -145,6 +194,7 @@ def all_cases():
 
 
 def classify(r):
+    if r["case"].startswith("fresh-process"): return f"C14|{r['case']}|{r['status']}"
     if r["case"].startswith("grouped"):
         if "invalid[outside-allowed-list]" in r["case"] and r["status"] == "refused-but-model-changed": return "D8"
         return f"C14|{r['case']}|{r['status']}|{','.join(r['diff'])[:200]}"
@@ -163,6 +213,7 @@ def run(tier, seed, procs=16):
     res = H.run_parallel(_case, items, procs)
     res += H.run_parallel(_grouped_case, [(f, o) for f in ("relink-server", "relink-network", "numeric", "list") for o in ("valid-first", "invalid-first")], procs)
     res += H.run_parallel(_grouped_case, [(f, o, "outside-allowed-list") for f in ("relink-server", "relink-network", "numeric", "list") for o in ("valid-first", "invalid-first")], procs)
+    res += [_fresh_process_case(n) for n in FRESH_PROCESS_SCENARIOS]
     viol, samples, nontrivial = [], [], set()
     for r in res:
         if r["status"] == "harness-error": raise RuntimeError("bounded harness error: " + r.get("error", ""))
